@@ -8,9 +8,9 @@ RUN=$(ls $S/demo/run.sh 2>/dev/null)
 if [ -z "$RUN" ]; then echo "no run.sh"; ls $S $S/demo; exit 2; fi
 git apply $S/patch.diff || { echo "patch does not apply to worktree"; exit 2; }
 go build ./... || { echo "does not build"; exit 2; }
-(sh $RUN > /tmp/confirm_with.$$ 2>&1); rc_with=$?
+(bash $RUN > /tmp/confirm_with.$$ 2>&1); rc_with=$?
 git checkout -q -- . && git clean -fdq
-(sh $RUN > /tmp/confirm_without.$$ 2>&1); rc_without=$?
+(bash $RUN > /tmp/confirm_without.$$ 2>&1); rc_without=$?
 echo "$ID/$N demo with change: rc=$rc_with ($(tail -1 /tmp/confirm_with.$$ | cut -c1-100)); without: rc=$rc_without ($(tail -1 /tmp/confirm_without.$$ | cut -c1-100))"
 rm -f /tmp/confirm_with.$$ /tmp/confirm_without.$$
 [ $rc_with -ne 0 ] && [ $rc_without -eq 0 ]
